@@ -194,6 +194,7 @@ def transport_shape(b, cls, logs=LOGS):
     kind = b.choice('mode', ['b', 's'])
     f = dict(
         encoding=b.none() if kind == 'b' else b.const('utf-8'),
+        codec_errors=b.const('strict'),
         string_type=b.cls('bytes' if kind == 'b' else 'str'),
         linesep=b.const(b'\n' if kind == 'b' else '\n'),
         child_fd=b.int('child_fd'),
